@@ -1,5 +1,6 @@
 (* C08 — Outcome is schedule-independent; stream calls are never made concurrently.
-   Theorems about the goroutine-level LTS (Model/Lts.v); proofs in Proofs/Lts{Inv,Safe,C08}.v.
+   Theorems about the goroutine-level LTS (Model/Lts.v); proofs in
+   Proofs/Lts{Inv,Safe,C08,Tok,Content,Content2,Content3}.v.
    Data races / the Go memory model are outside the model (see props/C08.json).
 
    FULL STATEMENT of outcome_deterministic (not proved in full, see the _partial theorem):
@@ -10,24 +11,23 @@
        run p (init p) ls1 = Some st1 -> run p (init p) ls2 = Some st2 ->
        final st1 = true -> final st2 = true ->
        send_ret st1 = send_ret st2 /\ recv_ret st1 = recv_ret st2 /\
-       (forall id, memb id (completed st1) = memb id (completed st2)) /\
-       (forall id, memb id (reqs st1) = memb id (reqs st2)) /\
-       (forall id, count_occ Nat.eq_dec (written st1) id = count_occ Nat.eq_dec (written st2) id)
+       Permutation (completed st1) (completed st2) /\ Permutation (reqs st1) (reqs st2) /\
+       Permutation (written st1) (written st2)
 
    where fault_free ls = no label of ls is a fault, a cancellation, a stream failure or a
    tear-down (LEnvCloseSend, the transport's EOF after Send returned, is allowed).
-   Proved below: the request set and the completed set of ANY two reachable states in which
-   Receive returned nil are equal, and equal to [need_ids p] (a sequential function of the
-   parameters) — for all interleavings and even in the presence of faults; no file is ever
-   requested twice, so the request sequence is a permutation of [need_ids p].  Not proved:
-   (1) equality of the per-file chunk counts [written] (the content part of the destination;
-   false in the presence of an Open error, known finding open-error-empty-file-success, hence
-   it needs the fault-free hypothesis and a per-file invariant relating the worker's chunk
-   counter to the packets in flight), (2) that a complete fault-free run always returns nil on
-   both sides (no spurious "invalid file id" / "invalid file request"), which is what lets
-   the hypothesis "Receive returned nil" be dropped. *)
+   Proved below (outcome_deterministic_partial): the same conclusion for ANY two executions
+   (all interleavings, all capacities and worker counts, faults other than an Open error
+   allowed) that end with Receive returning nil: the sequence of requests, the sequence of
+   completed files and the sequence of written chunks are permutations of each other, and
+   they are given by sequential functions of the parameters (need_ids, expected_chunks).
+   Not proved: that a complete fault-free run always returns nil on both sides (no spurious
+   "invalid file id" / "invalid file request" in the model), which is what would replace the
+   hypothesis "Receive returned nil" by "complete and fault-free".  An Open error must be
+   excluded: with it the statement is false (known finding open-error-empty-file-success). *)
 From Coq Require Import List Arith Bool PeanoNat Permutation.
-From FS Require Import Model.Lts Model.LtsExplore Proofs.LtsInv Proofs.LtsSafe Proofs.LtsC08.
+From FS Require Import Model.Lts Model.LtsExplore Proofs.LtsInv Proofs.LtsSafe Proofs.LtsC08 Proofs.LtsTok
+  Proofs.LtsContent Proofs.LtsContent2 Proofs.LtsContent3.
 Import ListNotations.
 
 (* In every reachable state at most one goroutine per side is inside Stream.SendMsg
@@ -70,9 +70,9 @@ Theorem success_outcome_is_sequential : forall p st, reachable p st -> recv_ret 
              (memb id (reqs st) = true <-> In id (need_ids p)).
 Proof. exact success_outcome_proof. Qed.
 
-(* Hence two executions from the same initial state that both end with Receive returning nil
-   have equal completed sets and equal request sets. *)
-Theorem outcome_deterministic_partial : forall p st1 st2,
+(* Hence two such states have equal completed sets and equal request sets (faults of any kind
+   allowed on the way). *)
+Theorem success_sets_equal : forall p st1 st2,
   reachable p st1 -> reachable p st2 -> recv_ret st1 = Some true -> recv_ret st2 = Some true ->
   (forall id, memb id (completed st1) = memb id (completed st2)) /\
   (forall id, memb id (reqs st1) = memb id (reqs st2)).
@@ -88,10 +88,36 @@ Theorem success_requests_permutation : forall p st, reachable p st -> recv_ret s
   Permutation (reqs st) (need_ids p).
 Proof. exact success_requests_permutation_proof. Qed.
 
+(* No file is completed twice (every id is served at most once: token invariant over sfiles,
+   queue(), the pipeline, the workers, the stream and the receive loop). *)
+Theorem completed_at_most_once : forall p st, reachable p st -> NoDup (completed st).
+Proof. exact completed_nodup_proof. Qed.
+
+(* Content: when Receive has returned nil and no Open error was injected, the number of chunks
+   written for each id is all of its chunks if its content is needed and none otherwise. *)
+Theorem success_content_is_sequential : forall p st, reachable p st ->
+  recv_ret st = Some true -> g_open_err st = false ->
+  forall id, count_occ Nat.eq_dec (written st) id = expected_chunks p id.
+Proof. exact success_written_count_occ_proof. Qed.
+
+(* outcome_deterministic for executions that end with Receive returning nil (no Open error
+   injected; every other fault, every interleaving, every capacity allowed). *)
+Theorem outcome_deterministic_partial : forall p ls1 ls2 st1 st2,
+  forallb not_open_err ls1 = true -> forallb not_open_err ls2 = true ->
+  run p (init p) ls1 = Some st1 -> run p (init p) ls2 = Some st2 ->
+  recv_ret st1 = Some true -> recv_ret st2 = Some true ->
+  Permutation (completed st1) (completed st2) /\
+  Permutation (reqs st1) (reqs st2) /\
+  Permutation (written st1) (written st2).
+Proof. exact outcome_deterministic_runs_proof. Qed.
+
 Print Assumptions send_mutex_inv.
 Print Assumptions single_recv.
 Print Assumptions payload_consumed_before_reuse.
 Print Assumptions success_outcome_is_sequential.
+Print Assumptions success_sets_equal.
+Print Assumptions completed_at_most_once.
+Print Assumptions success_content_is_sequential.
 Print Assumptions outcome_deterministic_partial.
 Print Assumptions requested_at_most_once.
 Print Assumptions success_requests_permutation.
